@@ -15,6 +15,9 @@ Decided structurally:
         counter of the leaves loop and the annotation's structure name.
   C16.4 errors: reading the label when unset and setting it when set raise AnnotationError
         before anything is stored.
+  C16.6 every leaf position is visited: in the leaves loop no path through an iteration
+        returns to the loop header without having handed that leaf to the leaf check (a
+        skipped position is never bound, so later trees may disagree on it unnoticed).
 Not decided: agreement of sizes across trees (value level).
 """
 from __future__ import annotations
@@ -44,6 +47,7 @@ def run(ctx: RuleContext):
     ctx.sub(check_sibling_agreement, ctx, r)
     ctx.sub(check_errors, ctx, r)
     ctx.sub(check_label_template, ctx, r, cg)
+    ctx.sub(check_every_leaf_visited, ctx, r, cg)
 
 
 # ------------------------------------------------------------------------ C16.2
@@ -124,7 +128,7 @@ def check_label_template(ctx, r, cg):
     labels = [fl for fl in flags if fl.guarded_setters or fl.raising_getters]
     need(len(labels) == 1, f"expected exactly one label flag (raise-if-set setter / raise-if-unset getter), found {len(labels)}")
     fl = labels[0]
-    setter = ([f for f in fl.setters if f.qualname in fl.guarded_setters] or fl.setters)[0]
+    setter = need([f for f in fl.setters if f.qualname in fl.guarded_setters] or fl.setters or fl.mixed, "label setter not found")[0]
     ctx.saw(setter)
     need(len(setter.params) >= 2, "label setter no longer takes (index, structure)")
     p_index, p_struct = setter.params[0], setter.params[1]
@@ -299,3 +303,74 @@ def _check_polarity(ctx, f, tnode, getter: bool):
                 f"(has-attribute, is-None) = {bad}")
     else:
         ctx.ok("C16.4", f.qualname, ("get-when-unset" if getter else "set-when-set") + " raises; truth table over (has attribute, value is None) agrees")
+
+
+# ------------------------------------------------------------------------ C16.6
+def check_every_leaf_visited(ctx, r, cg):
+    m = ctx.model
+    stack_tl, _, _ = c05.locate_stack(r)
+    flags = discover_flags(m, r, stack_tl)
+    labels = [fl for fl in flags if fl.guarded_setters or fl.raising_getters]
+    need(labels, "label flag not found")
+    fl = labels[0]
+    fns = {}
+    for s_ in fl.setters + fl.mixed:
+        for caller, call in cg.callers(s_):
+            if caller.module.short != "_storage":
+                fns[caller.qualname] = caller
+    need(fns, "no function sets the '?' label")
+    n_loops = 0
+    for f in fns.values():
+        ctx.saw(f)
+        g = NoReturn(m).cfg(f)
+        for hdr in [n for n in g.live_nodes() if n.kind == "for"]:
+            st = hdr.ast
+            it = st.iter
+            if not (isinstance(it, ast.Call) and isinstance(it.func, ast.Name) and it.func.id == "enumerate" and isinstance(st.target, ast.Tuple)
+                    and len(st.target.elts) == 2 and isinstance(st.target.elts[1], ast.Name)):
+                continue
+            leafvar = st.target.elts[1].id
+            n_loops += 1
+            checks = set()
+            for n in g.live_nodes():
+                for c in ast.walk(n.ast) if n.ast is not None and n.kind in ("stmt", "test", "return") else []:
+                    if isinstance(c, ast.Call) and any(isinstance(a, ast.Name) and a.id == leafvar for a in c.args):
+                        # a builtin such as id()/type()/len() applied to the leaf is not a check of it
+                        if m.resolve_call(f, c).kind in ("callout", "func", "method"):
+                            checks.add(n.id)
+            if not checks:
+                ctx.bad("C16.6", f, st, f"the leaves loop never hands `{leafvar}` to the leaf check")
+                continue
+            # can the header be reached again from the loop body without passing a check node?
+            start = [s2 for k, s2 in hdr.succ if k == "loop"]
+            seen = set()
+            stack = list(start)
+            skipped = None
+            while stack:
+                n = stack.pop()
+                if n.id in seen or n.id in checks:
+                    continue
+                seen.add(n.id)
+                if n is hdr:
+                    skipped = n
+                    break
+                for k, s2 in n.succ:
+                    if k in ("e", "b") or s2.kind in ("exit", "exit_e", "exit_b"):
+                        continue
+                    stack.append(s2)
+            if skipped is not None:
+                culprit = None
+                for nid in seen:
+                    nd = g.nodes[nid]
+                    if nd.kind == "stmt" and isinstance(nd.ast, ast.Continue):
+                        culprit = nd.ast
+                    if nd.kind == "test" and culprit is None:
+                        culprit = nd.ast
+                ctx.bad("C16.6", f, culprit if culprit is not None else st,
+                        f"an iteration of the leaves loop can return to the loop header without `{leafvar}` having been checked: that leaf position "
+                        "binds nothing ('?' axes are per leaf position), so a later tree may disagree on it unnoticed",
+                        construct=f"leaves loop: iteration path skips the check of `{leafvar}`" + (f" via `{short(culprit, 60)}`" if culprit is not None else ""))
+            else:
+                ctx.ok("C16.6", f.qualname, f"every iteration of the leaves loop passes `{leafvar}` to the leaf check before the next one starts")
+    ctx.counters["leaves_loops"] = n_loops
+    ctx.floor("C16.6", "leaves_loops", 1)
